@@ -58,6 +58,7 @@ def required(tier):
     b = {f'kind:{k}': 100 for k in KINDS}
     b.update({'dfdt:integer': 40, 'dfdt:rounds-down': 150, 'dfdt:tie': 100, 'dfdt:rounds-up': 150})
     b.update({f'prior:{k}': 100 for k in set(PRIOR)})
+    b['scale:below-1e-8'] = 40
     b.update({'first-noise-on-empty': 400, 'reestimate': 500, 'signal-before-first-noise': 100, 'zero-data': 150,
               'signal-between-noise': 300, 'no-noise-raises': 500, 'share:on': 60, 'share:off': 60, 'tables:list': 200,
               'tables:ndarray': 200, 'obs-later-identified': 50, 'max-rule-mean-from-std-table': 15,
@@ -150,6 +151,8 @@ def _frame_case(rng, i, tier):
     if tch * fch > 300000:
         hist = hist[:3]
     base = float(10 ** rng.uniform(-3, 9))
+    if i % 13 == 5:
+        base = float(10 ** rng.uniform(-13, -9))      # every parameter far below 1e-8 in absolute value (still a valid noise level)
     ops = []
     first = True
     for ch in hist:
@@ -312,6 +315,8 @@ class FrameModel:
 def run_case(c, R):
     if c['what'] == 'voltage':
         return run_voltage(c, R)
+    if c['base'] < 1e-8:
+        R.bucket('scale:below-1e-8')
     return run_frame(c, R)
 
 
